@@ -14,6 +14,8 @@ if __name__ == '__main__':
     for f in sorted(glob.glob(os.path.join(common.VERIF, 'harness', 'props', 'c*.py'))):
         mod = importlib.import_module('harness.props.' + os.path.basename(f)[:-3])
         res.update(common.fingerprint(getattr(mod, 'FUNCTIONS', [])))
+    from harness import routes
+    res.update(common.fingerprint(routes.FRONT_END))      # the front end every route passes through (harness/routes.py)
     with open(os.path.join(common.VERIF, 'harness', 'fingerprints.json'), 'w') as f:
         json.dump(res, f, indent=1, sort_keys=True)
     print('%d fingerprints pinned' % len(res))
